@@ -133,9 +133,14 @@ class TabIntpCompuMethod(CompuMethod):
                                        domain_samples: List[Union[int,
                                                                   float]]) -> Union[float, None]:
         for i in range(0, len(range_samples) - 1):
-            if (x0 := range_samples[i]) <= x and x <= (x1 := range_samples[i + 1]):
+            x0 = range_samples[i]
+            x1 = range_samples[i + 1]
+            # (the samples are not necessarily increasing)
+            if min(x0, x1) <= x and x <= max(x0, x1):
                 y0 = domain_samples[i]
                 y1 = domain_samples[i + 1]
+                if x0 == x1:
+                    return y0
                 return y0 + (x - x0) * (y1 - y0) / (x1 - x0)
 
         return None
